@@ -106,3 +106,117 @@ fn position_conversions() {
     assert!(<str as Input>::start_position() == Position { pos: 0, line_col: Some(LineColumn { line: 1, column: 0 }) });
     assert!(<[u8] as Input>::start_position() == Position { pos: 0, line_col: None });
 }
+
+
+// ---------------------------------------------------------------------------------------------------------------
+// Twins of the Verus obligations on TreeBuilder / SliceBuilder (lr/builder.rs): bounded(<= 3 nodes), through the
+// public API only.
+use crate::lexer::Token;
+use crate::lr::builder::{LRBuilder, SliceBuilder, TreeBuilder, TreeNode};
+use crate::lr::context::LRContext;
+use crate::{Builder, Context, State};
+
+#[derive(Debug, Default, Clone, Copy, PartialEq, Eq)]
+struct St(u8);
+impl State for St {
+    fn default_layout() -> Option<Self> {
+        None
+    }
+}
+fn any_pos() -> Position {
+    Position { pos: kani::any(), line_col: if kani::any() { Some(LineColumn { line: kani::any(), column: kani::any() }) } else { None } }
+}
+fn any_span() -> SourceSpan {
+    SourceSpan { start: any_pos(), end: any_pos() }
+}
+type Ctx<'i> = LRContext<'i, [u8], St, u8>;
+type TB<'i> = TreeBuilder<'i, [u8], u8, u8>;
+
+fn kind_of(n: &TreeNode<'_, [u8], u8, u8>) -> u8 {
+    match n {
+        TreeNode::TermNode { token, .. } => token.kind,
+        TreeNode::NonTermNode { prod, .. } => 100 + *prod,
+    }
+}
+
+/// shift k leaves (1..=3), reduce the top m of them (0..=k) by production 7, then get_result.
+#[kani::proof]
+#[kani::unwind(6)]
+fn twin_tree_builder() {
+    let input: [u8; 4] = [1, 2, 3, 4];
+    let layouts: [Option<&[u8]>; 3] = [
+        if kani::any() { Some(&input[0..1]) } else { None },
+        if kani::any() { Some(&input[1..2]) } else { None },
+        if kani::any() { Some(&input[2..3]) } else { None },
+    ];
+    let mut ctx: Ctx = LRContext::new(any_pos());
+    let mut b: TB = TreeBuilder::new();
+    let k: usize = kani::any();
+    kani::assume(1 <= k && k <= 3);
+    let mut i = 0;
+    while i < k {
+        ctx.set_layout_ahead(layouts[i]);
+        LRBuilder::<[u8], Ctx, St, u8, u8>::shift_action(&mut b, &ctx, Token { kind: i as u8 + 1, value: &input[i..i + 1], span: any_span() });
+        i += 1;
+    }
+    let m: usize = kani::any();
+    kani::assume(m <= k);
+    let sp = any_span();
+    ctx.set_span(sp);
+    ctx.set_layout_ahead(None);
+    LRBuilder::<[u8], Ctx, St, u8, u8>::reduce_action(&mut b, &ctx, 7, m);
+    // C02: get_result hands over the top of the result stack -- the node just built
+    let top = b.get_result();
+    match top {
+        TreeNode::NonTermNode { prod, span, children, layout } => {
+            assert!(prod == 7 && span == sp);
+            assert!(children.len() == m);
+            let mut j = 0;
+            while j < m {
+                // children are the popped suffix, in order
+                assert!(kind_of(&children[j]) == (k - m + j) as u8 + 1);
+                j += 1;
+            }
+            // C14: the node inherits the layout of its first child; none for an empty production
+            let want = if m > 0 { layouts[k - m] } else { None };
+            assert!(layout.map(|l| l[0]) == want.map(|l| l[0]) && layout.is_some() == want.is_some());
+        }
+        TreeNode::TermNode { .. } => panic!("C02: get_result did not return the node built by the last reduction"),
+    }
+    // whatever was below stays below, untouched: the next result is leaf k-m (if any)
+    if k - m > 0 {
+        let below = b.get_result();
+        assert!(kind_of(&below) == (k - m) as u8);
+        match below {
+            TreeNode::TermNode { layout, .. } => assert!(layout.is_some() == layouts[k - m - 1].is_some()),
+            _ => panic!("C02: a leaf was replaced"),
+        }
+    }
+    kani::cover!(m == 0 && k == 3, "empty reduction above three leaves");
+    kani::cover!(m == 3, "reduce three");
+}
+
+/// C14: SliceBuilder (layout parser) -- reduce_action stores input[span], get_result returns it.
+#[kani::proof]
+#[kani::unwind(6)]
+fn twin_slice_builder() {
+    let input: [u8; 4] = kani::any();
+    let a: usize = kani::any();
+    let z: usize = kani::any();
+    kani::assume(a <= z && z <= 4);
+    let mut ctx: Ctx = LRContext::new(any_pos());
+    let mut b: SliceBuilder<[u8]> = SliceBuilder::new(&input[..]);
+    assert!(b.get_result().is_none());
+    let mut sp = any_span();
+    sp.start.pos = a;
+    sp.end.pos = z;
+    ctx.set_span(sp);
+    LRBuilder::<[u8], Ctx, St, u8, u8>::shift_action(&mut b, &ctx, Token { kind: 1, value: &input[0..0], span: any_span() });
+    assert!(b.get_result().is_none());
+    LRBuilder::<[u8], Ctx, St, u8, u8>::reduce_action(&mut b, &ctx, 3, 1);
+    let r = b.get_result().unwrap();
+    assert!(r.len() == z - a);
+    if z > a {
+        assert!(r[0] == input[a] && r[z - a - 1] == input[z - 1]);
+    }
+}
